@@ -6,6 +6,7 @@ import os
 import time
 from collections import Counter
 
+import fam_gossip as fg
 import fam_processor as fp
 import vlib
 
@@ -91,6 +92,35 @@ def pre_class(prev, line):
     return (ev, min(nkeys, 5) if nkeys < 19 else 19, ec, extra, outk, len(s.get("db") or {}) > 0)
 
 
+def run_gossip(work, tier, seed, verdict):
+    """C03, heartbeat / observation-request verifiers of pkg/p2p against Gossip.tla."""
+    r = vlib.tlc_must_pass(work, "MC_Gossip", "MC_Gossip.cfg", workers=vlib.NCPU, timeout=1200)
+    print("TLC MC_Gossip.cfg: %d distinct states, %d transitions, %.0fs" % (r["distinct"], r["generated"], r["wall_s"]))
+    n_tlc, n_gen = (60, 150) if tier == "quick" else (1500, 4000)
+    scs = fg.tlc_scenarios(work, n_tlc, 12, seed) + fg.gen_scenarios(seed, n_gen)
+    lines, wall, skipped = fg.replay(work, scs)
+    rejs, tr = fg.validate(work, lines)
+    print("gossip verifiers: %d histories, %d verifier calls replayed in %.1fs; trace validation %d states, %d rejected line(s)"
+          % (len(scs), len(lines), wall, tr["distinct"], len(rejs)))
+    byn = {(ln["t"], ln["n"]): ln for ln in lines}
+    for rj in rejs:
+        ln = byn.get((rj["t"], rj["n"]), {"ev": rj.get("ev"), "a": {}, "s": {}})
+        sc = scs[rj["t"] - 1] if 0 < rj["t"] <= len(scs) else None
+        verdict.add(fg.signature(rj, ln), {"line": ln, "why": rj.get("why"), "spec_state": rj.get("spec"), "tlc": rj.get("tlc"), "gossip_scenario": sc})
+    classes = set()
+    verdicts = Counter()
+    for ln in lines:
+        e = ln.get("a", {}).get("e")
+        if e:
+            classes.add((e["kind"], e["signer"] == e["claimed"], e["dom"], e["same"], e["parses"],
+                         (e["plen"] + (10 if e["kind"] == "hb" else 27) >= 34), e.get("shape"), ln["s"].get("verdict")))
+            verdicts["%s:%s" % (ln["ev"], ln["s"].get("verdict"))] += 1
+    maxpeers = max([len(v) for ln in lines for v in (ln.get("s", {}).get("hb") or {}).values()] or [0])
+    return {"states": r["distinct"], "transitions": r["generated"], "traces": len(scs), "verifier_calls": len(lines) - len(scs),
+            "distinct_classes": len(classes), "verdicts": dict(verdicts), "max_peers_seen_for_one_guardian": maxpeers,
+            "abstract_envelopes_without_concrete_counterpart": skipped, "rejected_lines": len(rejs)}
+
+
 def run(prop, tier, replay=None):
     t0 = time.time()
     work = vlib.scratch(prop)
@@ -138,6 +168,9 @@ def run(prop, tier, replay=None):
                               "tlc": rj.get("tlc"), "scenario": sc})
         else:
             others["%s:%s" % ("+".join(sorted(props)), sig)] += 1
+    gossip_cov = {}
+    if prop == "C03" and not replay:
+        gossip_cov = run_gossip(work, tier, seed, verdict)
     rc = verdict.finish()
     for k, v in others.items():
         print("note: %d rejected line(s) speak to another property (%s); see that property's check" % (v, k))
@@ -197,5 +230,12 @@ def run(prop, tier, replay=None):
         "known_findings_matched": getattr(verdict, "n_known", 0),
         "exhaustive": False,
     }
+    if gossip_cov:
+        cov["gossip_verifiers"] = gossip_cov
+        cov["states"] += gossip_cov["states"]
+        cov["transitions"] += gossip_cov["transitions"]
+        cov["traces_validated_against_impl"] += gossip_cov["traces"]
+        cov["evaluations"] += gossip_cov["verifier_calls"]
+        cov["distinct_nontrivial"] += gossip_cov["distinct_classes"]
     vlib.write_evidence(prop, tier, "model_checking", cov, ASSUME, time.time() - t0, getattr(verdict, "n_unknown", 0))
     return rc
